@@ -345,10 +345,10 @@ def request (P : SProto Q) (cls : Bytes → Ev) (c : CCfg) (req : Bytes) (tmo : 
 /-! ### whole executions -/
 
 inductive Obs
-  | req (o : Out) (t0 t1 : Nat) (nconn : Nat)
+  | req (o : Out) (tmo : Option Nat) (t0 t1 : Nat) (nconn : Nat)
   | closed (t : Nat)
   | rc (r : RcRes) (t0 t1 : Nat) (nconn : Nat)
-  | rd (r : PRes) (t0 t1 : Nat)
+  | rd (r : PRes) (tmo : Option Nat) (t0 t1 : Nat)
 deriving Repr
 
 /-- run an event list (`fuel` ≥ its length; a client call never lengthens the list) -/
@@ -364,12 +364,12 @@ def run (P : SProto Q) (cls : Bytes → Ev) (c : CCfg) : Nat → Sys Q → List 
       run P cls c fuel r.2.1 r.2.2 (obs ++ [.rc r.1 s.now r.2.1.now r.2.1.nconn])
     | .read tmo =>
       let r := opRead P s es tmo
-      let obs := obs ++ [.rd r.1 s.now r.2.1.now]
+      let obs := obs ++ [.rd r.1 tmo s.now r.2.1.now]
       if r.1 = .blocked then (r.2.1, obs)
       else run P cls c fuel r.2.1 r.2.2 obs
     | .request d tmo =>
       let r := request P cls c d tmo s es
-      let obs := obs ++ [.req r.1 s.now r.2.1.now r.2.1.nconn]
+      let obs := obs ++ [.req r.1 tmo s.now r.2.1.now r.2.1.nconn]
       if r.1 = .blocked then (r.2.1, obs)      -- the only client task never returns
       else run P cls c fuel r.2.1 r.2.2 obs
 
